@@ -482,9 +482,9 @@ PROPS = {
                     "to nothing, as shipped. (2) Per-configuration exploration: the preemptive exploration with the full model oracles of "
                     "C01/C02/C04/C05/C12 (C13, C10/C11) runs in the non-default configurations, so all configurations refine the same model. (3) "
                     "Async-stack balance (debug builds): tryGetCurrentAsyncStackRoot() is null on the starting thread after completion and on "
-                    "every actor thread when it goes idle; the library's own async-stack assertions are verdicts."),
+                    "every actor thread when it goes idle; the library's own async-stack assertions are verdicts. (3) async_trace chain (configurations with continuation visitation): at every leaf start of the interpreter async_trace(receiver) must reach the root receiver and pass exactly one harness erasure point per node on the path (the harness bridges report their continuation through a type-erased continuation_info); paths through any_sender_of<> are not judged (it forwards only the CPOs it was declared with)."),
         level_note=("Trusted: usim stubs; NP runs are deterministic per configuration because thread switches happen only at blocking operations. "
-                    "Not decided: the async_trace chain clause (leaf-to-root receiver chain with CV=1). The NDEBUG+CV configurations only build with "
+                    "The async_trace chain clause is decided for the adaptors of the sender interpreter only (streams, coroutines, bulk, spawn, create, detach_on_cancel, sync_wait have no such oracle; several of them have no visit_continuations customisation at all). The NDEBUG+CV configurations only build with "
                     "async_trace.hpp force-included (with_query_value.hpp uses visit_continuations without including it)."),
         real=["every adaptor of the interpreter, the stream adaptors and task<> in up to eight build configurations", "async_stack.cpp bookkeeping"],
         stub=["pthread layer, heap (usim)"],
